@@ -335,7 +335,7 @@ CLAIMED = {
         "Theorems for every ordered ring, any rule set (no bound on actions, effects, targets) and any gate threshold in "
         "[0,1): under a one-hot selection every target receives exactly the sum of the winner's effects (fixed and "
         "dynamic, pointer and scalar) and nothing from any other action, pointwise in time, so routed effects follow the "
-        "winner; utilities are connected index by index. PARTIAL: that the basal ganglia / thalamus make the selection "
+        "winner; utilities are connected index by index. For ANY selection activity (Theory/RoutingRobust.v): the received value of every component of every target as an explicit sum over actions (fixed effects scaled by the unit's activity, dynamic effects passed iff the gate is open), and the leak bound |received - winner's effects| <= eps * (total fixed effect of the losers) whenever the losers' activities are at most eps with closed gates. PARTIAL: that the basal ganglia / thalamus make the selection "
         "one-hot for a clear margin is a property of neural dynamics that is not modelled; it is observed in every "
         "simulated phase (winner > 0.75, losers < 0.2) and a failure is reported as a violation; the values of dynamic "
         "effect expressions are those of C01. Tie (a) exact: which thalamus ensemble drives each fixed connection / gate, "
